@@ -94,7 +94,9 @@ def run_random_case(ctx, kind, idx):
     ctx.monitor("c03:idempotence")
     amp = amplification(case, fi, ri, resl, [float(v) for v in case["y_ref"]])
     rel = tol.rel_for(case["x"])
-    mag = max(abs(v) for v in resl)
+    # the first result is input + stretch: it carries rounding of the INPUT's magnitude (cancellation), which the
+    # second matching then legitimately corrects
+    mag = max(max(abs(v) for v in resl), max(abs(float(v)) for v in case["y"]))
     for k in range(len(fi) - 1):
         lim = rel * (amp[k] + mag) + 1e-300
         for i in range(fi[k], fi[k + 1] + 1):
